@@ -145,13 +145,14 @@ func quick(g *gwbox.Gateway, host, path string) (int, int) {
 }
 
 func TestPropRemovalCutsInflight(t *testing.T) {
-	sub := stats.NewSub("removal-timing", "rapid: what is removed (cluster c1 / the first endpoint of c1), when relative to a target request on that endpoint (before it is sent / while the stub delays its headers / after j = 1..5 streamed chunks), 0-3 bystanders (streams or held requests on the other endpoint of c1 and on cluster c2); oracle: the target ends at the client and its context dies at the stub within 2 s of the removal; the removed endpoint (optionally disabled and re-enabled before) receives no health probe later than 300 ms after the removal (probe period shortened to 20 ms by the verif hook); afterwards requests to the deleted cluster get 503 and nothing is forwarded, the removed endpoint is never picked again; bystander streams keep delivering chunks for 300 ms and finish normally when released, held bystander requests return 200; non-trivial = the removal happens while the target is connecting or streaming and there is >= 1 bystander; distinct by FNV-64 of the plan")
+	sub := stats.NewSub("removal-timing", "rapid: what is removed (cluster c1 / the first endpoint of c1), when relative to a target request on that endpoint (before it is sent / while the stub delays its headers / after j = 1..5 streamed chunks), 0-3 bystanders (streams or held requests on the other endpoint of c1 and on cluster c2); oracle: the target ends at the client and its context dies at the stub within 2 s of the removal; the removed endpoint (optionally disabled and re-enabled before; optionally disabled - drained - while the target is in flight and still disabled when removed) receives no health probe later than 300 ms after the removal (probe period shortened to 20 ms by the verif hook); afterwards requests to the deleted cluster get 503 and nothing is forwarded, the removed endpoint is never picked again; bystander streams keep delivering chunks for 300 ms and finish normally when released, held bystander requests return 200; non-trivial = the removal happens while the target is connecting or streaming and there is >= 1 bystander; distinct by FNV-64 of the plan")
 	stats.Check(t, stats.N(20, 150), func(t *rapid.T) {
 		what := rapid.SampledFrom([]string{"cluster", "endpoint"}).Draw(t, "remove")
 		when := rapid.SampledFrom([]string{"before", "connecting", "streaming", "streaming"}).Draw(t, "when")
 		j := rapid.IntRange(1, 5).Draw(t, "chunksBefore")
 		nBy := rapid.IntRange(0, 3).Draw(t, "bystanders")
 		flap := rapid.Bool().Draw(t, "disableEnableBeforeRemoval")
+		drained := rapid.Bool().Draw(t, "disabledWhenRemoved") // the usual drain procedure: disable first, remove later
 		type by struct {
 			host, path string
 			streaming  bool
@@ -173,7 +174,7 @@ func TestPropRemovalCutsInflight(t *testing.T) {
 			}
 			bys = append(bys, b)
 		}
-		plan := fmt.Sprintf("remove %s %s (j=%d) disable/enable before=%v bystanders %+v", what, when, j, flap, bys)
+		plan := fmt.Sprintf("remove %s %s (j=%d) disable/enable before=%v disabled when removed=%v bystanders %+v", what, when, j, flap, drained, bys)
 		g := gwbox.NewGateway()
 		defer g.Close()
 		g.SetToken("client-token", gwbox.Identity{Name: "alice"})
@@ -261,6 +262,16 @@ func TestPropRemovalCutsInflight(t *testing.T) {
 					t.Skip("bystander stream did not deliver chunks")
 				}
 			}
+		}
+		if drained {
+			// the endpoint is taken out of rotation while the target is in flight on it (requests in flight go on by design)
+			dis := clusterObj("c1", 0, 1, true)
+			b := true
+			dis.Spec.Servers[0].Disabled = &b
+			if res, err := g.Box.Apply(dis); err != nil || res.RequeueAfter > 0 {
+				t.Fatalf("harness: disabling the endpoint failed: %v %v", err, res)
+			}
+			sub.Class("endpoint-disabled-when-removed")
 		}
 		// ---- the removal
 		if what == "cluster" {
